@@ -183,7 +183,7 @@ func ifNud(p *parser, t *token) *token {
 	for {
 		first := p.Expression(0, "{")
 		if p.Token.Symbol == ";" {
-			t.Append(first)
+			t.Append(asStatement(first))
 			p.Advance(";")
 			t.Append(p.Expression(0, "{"))
 		} else {
